@@ -419,6 +419,45 @@ def model_check_stream(chk):
     return r
 
 
+def apalache_inductive(chk):
+    """Thorough tier: Apalache discharges the connection discipline of ResetStream as an inductive invariant (MC_ResetStreamInd):
+    Init => IndInv, IndInv /\\ Next => IndInv', IndInv => the P_C09 invariants, for unconstrained natural constants (any retry budget, any
+    number of faults, calls, streams; any delays and times).  Two controls: the arbitrary pre-state is not vacuous, and a ResetStream
+    whose Drop forgets to close the connection is NOT inductive."""
+    import shutil
+    import subprocess
+    wd = vlib.workdir(chk.pid + "-apalache")
+    src = os.path.join(vlib.SPEC, "client")
+    for f in ("ResetStream.tla", "MC_ResetStreamInd.tla"):
+        shutil.copy(os.path.join(src, f), wd)
+
+    def run(init, inv, length, cwd=wd):
+        p = subprocess.run(["apalache-mc", "check", "--init=" + init, "--cinit=ConstInit", "--inv=" + inv, "--length=%d" % length,
+                            "--out-dir=" + os.path.join(wd, "out"), "MC_ResetStreamInd.tla"], cwd=cwd, stdout=subprocess.PIPE,
+                           stderr=subprocess.STDOUT, text=True, timeout=3000)
+        if "The outcome is: NoError" in p.stdout:
+            return "holds"
+        if "The outcome is: Error" in p.stdout:
+            return "violated"
+        raise vlib.ToolError("apalache-mc failed (%s, %s):\n%s" % (init, inv, p.stdout[-2000:]))
+    res = {"Init => IndInv": run("Init", "IndInv", 0), "IndInv /\\ Next => IndInv'": run("IndInit", "IndInv", 1),
+           "IndInv => CommandsOnlyOnVetted /\\ NoUseAfterTaint /\\ OneLive /\\ KeepOnSuccess": run("IndInit", "Implied", 0),
+           "control: pre-state not confined to idle": run("IndInit", "NotVacuous", 0)}
+    # control: a stream that does not close the connection it drops is not inductive
+    mut = os.path.join(wd, "mut")
+    os.makedirs(mut, exist_ok=True)
+    m = open(os.path.join(wd, "ResetStream.tla")).read()
+    assert "Drop(taint) == /\\ closed' = closed \\cup {conn}" in m
+    open(os.path.join(mut, "ResetStream.tla"), "w").write(m.replace("Drop(taint) == /\\ closed' = closed \\cup {conn}", "Drop(taint) == /\\ closed' = closed"))
+    shutil.copy(os.path.join(wd, "MC_ResetStreamInd.tla"), mut)
+    res["control: Drop without closing is not inductive"] = run("IndInit", "IndInv", 1, cwd=mut)
+    chk.cov["model_runs"].append({"model": "MC_ResetStreamInd (Apalache 0.58, inductive invariant, unconstrained constants, id sets <= 4)", "results": res})
+    want = ["holds", "holds", "holds", "violated", "violated"]
+    if list(res.values()) != want:
+        raise vlib.ToolError("the inductive-invariant argument for ResetStream does not go through: %s" % res)
+    shutil.rmtree(wd, ignore_errors=True)
+
+
 def report_conn(chk, outs, pflags, claim, what=None):
     for sci, ev, flags in pflags:
         o = outs[sci]
